@@ -65,3 +65,8 @@ silent("C23", "batch-postprocessing-indexed-form",
               "    return tuple(fn(results[slices[i]]) for i, fn in enumerate(individual_fns))")])
 silent("C23", "transform-applied-to-pipeline-copy-method",
        [(_CP, "    program = copy(obj)\n    program.append(", "    program = obj.__copy__()\n    program.append(")])
+
+# --- R-C23-args
+fire("C23", "postprocessing-stack-reversed-in-place",
+     (_CP, "    for postprocessing in reversed(postprocessing_stack):", "    postprocessing_stack.reverse()\n    for postprocessing in postprocessing_stack:"),
+     "R-C23-args", "_apply_postprocessing_stack")
